@@ -20,10 +20,10 @@ import z3
 
 from . import values as V
 from .values import (Val, INT, BOOL, REAL, STR, TD, NONE, CONC, IntS, BoolS, RealS, StrS, TdS,
-                     NoneS, OptS, TupS, RecS, SeqS, EnumS, UnionS, MapS, ConcS, VNONE)
+                     NoneS, OptS, TupS, RecS, SeqS, EnumS, UnionS, MapS, DictS, ConcS, VNONE)
 from .objects import (Closure, LocalClass, PyMap, Obj, ExcInst, MatchObj, BoundMethod,
                       BuiltinMethod, GenExp, RangeObj, EnumerateObj, FilterObj, IsliceObj,
-                      ItemsObj, RxSym, PYINT, DECOK, PYPOW)
+                      ItemsObj, RxSym, PYINT, DECOK, PYPOW, SymbolicFile)
 from .state import State, Env, VCtx, OutOfSubset, BindingLost
 from .solve import feasible
 from .source import key_of_function, class_key, live_module
@@ -169,6 +169,10 @@ class Engine:
             return z3.BoolVal(True)
         if isinstance(s, TdS):
             return v.d != 0
+        if isinstance(s, DictS):
+            return v.d[1].d[1] > 0
+        if isinstance(s, UnionS):
+            return z3.Or([z3.And(v.d[0] == i, self.truth(a, st)) for i, a in enumerate(v.d[1])])
         if isinstance(s, ConcS):
             o = v.d
             if isinstance(o, MatchObj):
@@ -176,7 +180,7 @@ class Engine:
             if isinstance(o, PyMap):
                 if o.default is None:
                     return z3.BoolVal(len(o.items) > 0)
-            if isinstance(o, (Closure, Obj, LocalClass, type)):
+            if isinstance(o, (Closure, Obj, LocalClass, type, BoundMethod, BuiltinMethod)):
                 return z3.BoolVal(True)
             if isinstance(o, (list, tuple, dict, str, int)):
                 return z3.BoolVal(bool(o))
@@ -523,6 +527,8 @@ class Engine:
             return Q.exists(self, z3.IntVal(0), cont.d[1], lambda k: self.py_eq(V.seq_select(cont, k), item), "ink")
         if isinstance(s, MapS):
             return z3.Select(cont.d[0], V.leaves(V.coerce(item, s.key))[0])
+        if isinstance(s, DictS):
+            return self.contains(cont.d[0], item, st)
         if isinstance(s, OptS) and isinstance(s.inner, SeqS):
             self.raise_side(st, "TypeError", cont.d[0])
             return self.contains(cont.d[1], item, st)
@@ -690,7 +696,7 @@ class Engine:
         if isinstance(s, RealS):
             if name == "is_integer":
                 return V.vconc(BuiltinMethod(v, "float.is_integer"))
-        if isinstance(s, MapS):
+        if isinstance(s, (MapS, DictS)):
             if name in ("items", "keys", "get", "setdefault"):
                 return V.vconc(BuiltinMethod(v, "dict." + name))
         if isinstance(s, ConcS):
@@ -709,6 +715,8 @@ class Engine:
                 return V.vconc(BuiltinMethod(v, "logger." + name))
             if isinstance(o, str):
                 return V.vconc(BuiltinMethod(V.vstr(o), "str." + name))
+            if isinstance(o, SymbolicFile):
+                return V.vconc(BuiltinMethod(v, "file." + name))
             if isinstance(o, LocalClass):
                 raise OutOfSubset("attribute of local class")
             if isinstance(o, type) and name in ("__name__", "__qualname__"):
@@ -824,6 +832,8 @@ class Engine:
             if not self.spec_mode:
                 st.assume(V.wf(e))
             return e
+        if isinstance(s, DictS):
+            return self.subscript(v.d[0], i, st)
         if isinstance(s, OptS):
             self.raise_side(st, "TypeError", v.d[0])
             return self.subscript(v.d[1], i, st)
